@@ -48,7 +48,8 @@ impl Archive {
             && r->Some_0.format_version == 1 && r->Some_0.root_pair_hash@ == expected_pair@,
 //@replace /std::fs::read\(path\)/ => vfs_read(path, Tracked(w))
 //@replace /serde_json::from_slice\(&bytes\)/ => json_from_slice(&bytes)
-//@replace /a\.root_pair_hash == expected_pair/ => string_eq_str(&a.root_pair_hash, expected_pair)
+//@replace? /a\.root_pair_hash == expected_pair/ => string_eq_str(&a.root_pair_hash, expected_pair) #all
+//@replace? /a\.root_pair_hash != expected_pair/ => !string_eq_str(&a.root_pair_hash, expected_pair) #all
 //@at entry
         broadcast use asp_path, asp_pathbuf, asp_str;
 //@end
